@@ -265,6 +265,63 @@ def check(run, case):
     return False
 
 
+def handler_level(run, r):
+    """the same bounded-progress demand one level up, for the endpoints that keep ONE receiver for everything they are sent
+    (asyncio and Twisted datagram protocols, serial-style handler): garbage in a datagram / read of its own, then unique valid
+    read requests one per datagram; every request starting beyond the bound must be answered with its own register value"""
+    from .. import frontends as FE
+    from .. import repo
+    from pymodbus.datastore import ModbusSequentialDataBlock, ModbusSlaveContext, ModbusServerContext
+    n = run.scale(10, 400)
+    for front in ('aio-udp', 'tw-udp', 'sync-serial'):
+        for framing in FRAMINGS:
+            for i in range(n):
+                cls = CLASSES[i % len(CLASSES)]
+                g = garbage(r, framing, REQ, cls)
+                small_len = {'rtu': 8, 'ascii': 17, 'binary': 9}[framing]
+                nreq = BOUND[framing] // small_len + 12
+                reqs, frames = [], []
+                for k in range(nreq):
+                    a = 100 + k
+                    f = ADU.build(framing, UNIT, S.encode({'dir': REQ, 'fc': 3, 'address': a, 'count': 1}))
+                    if framing == 'binary' and any(b in (0x7B, 0x7D) for b in f[1:-1] + ADU.build('binary', UNIT, S.encode({'dir': RSP, 'fc': 3, 'registers': [a + 7]}))[1:-1]):
+                        continue
+                    reqs.append(a)
+                    frames.append(f)
+                block = ModbusSequentialDataBlock(0, [(x + 7) & 0xFFFF for x in range(2000)])
+                ctx = ModbusServerContext(slaves=ModbusSlaveContext(hr=block, zero_mode=True), single=True)
+                repo.reset_globals()
+                res = FE.feed(front, framing, ctx, [g] + frames)
+                run.count('handler_level_runs:%s' % front)
+                # requests starting beyond the bound
+                pos, want, got = 0, [], []
+                for k, f in enumerate(frames):
+                    if pos >= BOUND[framing]:
+                        want.append(ADU.build(framing, UNIT, S.encode({'dir': RSP, 'fc': 3, 'registers': [reqs[k] + 7]})))
+                        got.append(res.per_read[k + 1] if k + 1 < len(res.per_read) else b'')
+                    pos += len(f)
+                regs = regions(framing, g, 1, False, REQ, 0, None, g + b''.join(frames))
+                ok = want == got
+                case = {'handler': front, 'framing': framing, 'garbage': g, 'class': cls}
+                run.case(h64(('handler', front, framing, g)), True,
+                         sample={'level': 'handler', 'front': front, 'framing': framing, 'class': cls, 'garbage': g.hex()[:60], 'requests_beyond_bound': len(want),
+                                 'verdict': 'all answered' if ok else 'not all answered'}, sample_class=('handler', front, framing))
+                if ok or res.stalled:
+                    continue
+                for slug in regs:
+                    run.region('ascii-bad-lrc-blocks-forever' if slug == 'ascii-stray-colon' else slug)
+                missing = sum(1 for w, x in zip(want, got) if w != x)
+                if 'ascii-stray-colon' in regs and not res.escaped:
+                    run.known('ascii-bad-lrc-blocks-forever', "a ':' span with a bad LRC is kept forever and blocks every later frame", case)
+                    continue
+                if front.startswith('tw') and framing == 'ascii' and 'ascii-stray-colon' in regs:
+                    run.known('ascii-bad-lrc-blocks-forever', "a ':' span with a bad LRC is kept forever and blocks every later frame", case)
+                    continue
+                run.violation('handler:%s/%s:not-answered-after-bound' % (front, framing), case,
+                              '%s/%s: after garbage %s (%s) %d of %d requests beyond the %d-byte bound were not answered with their own reply; exceptions %r'
+                              % (front, framing, g.hex()[:60], cls, missing, len(want), BOUND[framing], [type(e).__name__ for e in res.escaped][:3]))
+
+
 def run(run):
     r = run.rng('main')
     run.rule = ('case = (framing, direction, garbage prefix of a class, N unique valid frames, frames per read, garbage in its own read or joined to the first frame); '
@@ -330,12 +387,18 @@ def run(run):
                 res = check(run, case)
                 if res is not None:
                     run.case(h64((framing, d, 'bc', bc)), True, sample=None)
+    if run.shard in (None, 0):
+        handler_level(run, r)
+        run.floor('handler-level runs', sum(v for k, v in run.counters.items() if k.startswith('handler_level_runs:')), 60)
     run.floor('scenarios per framing (min)', min(run.counters.get('scenarios:%s' % f, 0) for f in FRAMINGS), 150 if run.shard is None else 10)
     run.floor('clean-region scenarios', run.counters.get('clean_region_cases', 0), 200 if run.shard is None else 10)
     run.floor('deliveries observed', run.counters.get('deliveries', 0), 5000 if run.shard is None else 300)
 
 
 def replay(run, case):
+    if case.get('handler'):
+        print('note: handler-level cases are regenerated by the tier (seeded); the framer-level replay of the same garbage follows')
+        case = {'framing': case['framing'], 'dir': REQ, 'garbage': case['garbage'], 'class': case['class'], 'per_read': 1, 'joined': False, 'big': True, 'nframes': 24, 'fseed': 1, 'warm': 1}
     res = check(run, case)
     print({True: 'recovers', False: 'does not recover', None: 'no frame beyond the bound'}[res])
     run.evaluations += 1
